@@ -383,6 +383,14 @@ structure Probe where
   md : List MdItem
 deriving DecidableEq, Repr
 
+/-- **The same AST object handed to an executor again.**  `apply_ast_transformations` starts with
+`extract_metadata`, a node transformer that works IN PLACE on the caller's object: every
+`MetaData(...)` call is replaced by its first argument in the parent node.  A second translation of
+the same object therefore is the translation of the same query text without any metadata (the other
+in-place rewrites — collection calls and C++ function calls replaced by their code nodes — carry
+what the first translation resolved, they are part of the opaque translator). -/
+def reuseProbe (p : Probe) : Probe := { p with md := [] }
+
 abbrev Result := Outcome × List Found
 
 def foundFor (p : Probe) (s : HState) (e : Nat) : List Found :=
